@@ -138,6 +138,93 @@ func c16(c *Ctx) {
 		q := pathQuery{Fn: fin, Starts: []ssa.Instruction{set}, Barrier: func(in ssa.Instruction) bool { return in == ssa.Instruction(sw) }, Target: isReturn}
 		c.MustPass("finish-always-releases-throttler", q, sw)
 	})
+	c.Ob("hand-over", "R2", "no item is lost or invented between producer and consumer: put enqueues every non-nil item past the closed/callback tests and returns 'added' without enqueueing only for a nil item; a waiting consumer is always signalled after the enqueue; get goes to sleep only with no frame, no error and block=true, and returns otherwise; getOnceLocked dequeues only from a non-empty list and reports 'nothing' only for an empty one; finish walks the drained list to its end; throttle dereferences the throttle channel only when one exists", 10, func() {
+		put := c.fn(tr, "controlBuffer.executeAndPut")
+		enq := one(c, "list.enqueue", callsIn(put, Callee(tr, "itemList.enqueue")))
+		c.MustFact(enq, "enqueues-only-an-item", NotNil(ParamV("it")))
+		c.ArgIs(enq, 1, "enqueues-the-given-item", DataDep(ParamV("it")))
+		for _, fc := range callsIn(put, ValueCall(ParamV("f"))) {
+			c.MustFact(fc, "callback-called-only-when-given", NotNil(ParamV("f")))
+		}
+		for _, r := range returnsOf(put) {
+			if r.Block() == put.Recover || instrDominates(enq, r) {
+				continue
+			}
+			if ConstBool(true)(r.Results[0]) {
+				c.MustFact(r, "added-without-enqueue-only-for-no-item", IsNil(ParamV("it")))
+			}
+		}
+		// every path from the test that saw a waiting consumer to the return passes the wake-up send
+		var sel ssa.Instruction
+		for _, s := range instrsWhere(put, func(in ssa.Instruction) bool { _, ok := in.(*ssa.Select); return ok }) {
+			sel = s
+		}
+		if c.Expect(sel != nil, nil, put, "wake-up-send", "no wake-up send in executeAndPut") {
+			starts := edgeTargetsWhere(put, Truth(FieldLoad(fWait), true))
+			if c.Expect(len(starts) >= 1, sel, put, "waiting-consumer-arm", "the waiting flag is not tested") {
+				// the local flag set on that arm is tested later; its false edge is infeasible from there (the flag is set only there and never cleared)
+				c.MustPass("waiting-consumer-always-signalled", pathQuery{Fn: put, StartBlocks: starts, Barrier: func(in ssa.Instruction) bool { return in == sel }, Target: isReturn,
+					EdgeBlock: func(from, to *ssa.BasicBlock) bool {
+						_, ok := hasFact(edgeFacts(from, to), Truth(SetWhen(Truth(FieldLoad(fWait), true)), false))
+						return ok
+					}}, sel)
+			}
+			c.Expect(instrDominates(enq, sel), sel, put, "signal-after-enqueue", "the consumer is signalled before the item is in the list")
+		}
+		// get
+		g := c.fn(tr, "controlBuffer.get")
+		gol := one(c, "getOnceLocked in get", callsIn(g, Callee(tr, "controlBuffer.getOnceLocked")))
+		frame := ExtractOf(func(v ssa.Value) bool { return v == gol.Value() }, 0)
+		gerr := ExtractOf(func(v ssa.Value) bool { return v == gol.Value() }, 1)
+		for _, st := range storesToField(g, fWait) {
+			c.MustFact(st, "sleeps-only-without-a-frame", IsNil(frame))
+			c.MustFact(st, "sleeps-only-without-an-error", IsNil(gerr))
+			c.MustFact(st, "sleeps-only-when-asked-to-block", Truth(ParamV("block"), true))
+		}
+		c.Expect(len(storesToField(g, fWait)) == 1, nil, g, "announces-waiting-once", "expected one site announcing a waiting consumer")
+		for _, r := range returnsOf(g) {
+			if r.Block() == g.Recover {
+				continue
+			}
+			if frame(r.Results[0]) {
+				c.Expect(gerr(r.Results[1]), r, g, "returns-what-was-dequeued", "get does not return the dequeued frame with its error")
+			}
+		}
+		// getOnceLocked
+		gl := c.fn(tr, "controlBuffer.getOnceLocked")
+		dq := one(c, "list.dequeue in getOnceLocked", callsIn(gl, Callee(tr, "itemList.dequeue")))
+		empty := CallRes(Callee(tr, "itemList.isEmpty"), 0)
+		c.MustFact(dq, "dequeue-only-from-a-non-empty-list", Truth(empty, false))
+		for _, r := range returnsOf(gl) {
+			if r.Block() == gl.Recover {
+				continue
+			}
+			if ConstNil(r.Results[0]) && ConstNil(r.Results[1]) {
+				c.MustFact(r, "nothing-only-for-an-empty-list", Truth(empty, true))
+			}
+		}
+		// finish: the orphan walk ends only at the end of the list
+		fin := c.fn(tr, "controlBuffer.finish")
+		fOrph := c.field(tr, "clientHeaders", "onOrphaned")
+		for _, orph := range callsIn(fin, FieldCall(fOrph)) {
+			c.MustFact(orph, "orphan-walk-visits-existing-nodes", NotNil(func(v ssa.Value) bool { _, ok := v.(*ssa.Phi); return ok && typeName(v.Type()) == "itemNode" }))
+		}
+		for _, b := range fin.Blocks {
+			i, ok := b.Instrs[len(b.Instrs)-1].(*ssa.If)
+			if !ok || !isLoopHeader(b) {
+				continue
+			}
+			if bo, ok := i.Cond.(*ssa.BinOp); ok && typeName(bo.X.Type()) == "itemNode" {
+				c.EnteredOnlyWhenExcept(b.Succs[1], "orphan-walk-ends-only-at-the-end-of-the-list", func(p *ssa.BasicBlock) bool { return p != b }, IsNil(func(v ssa.Value) bool { return v == bo.X }))
+				c.Expect(len(breakPreds(b)) == 0, i, fin, "orphan-walk-not-left-early", "the orphan walk is left early")
+			}
+		}
+		// throttle
+		th := c.fn(tr, "controlBuffer.throttle")
+		for _, s := range instrsWhere(th, func(in ssa.Instruction) bool { _, ok := in.(*ssa.Select); return ok }) {
+			c.MustFact(s, "throttle-waits-only-on-an-existing-channel", NotNil(CallRes(CalleeX("sync/atomic", "Pointer.Load"), 0)))
+		}
+	})
 	c.Ob("throttled-classification", "R6", "reviewed table of every control-item type and its constant isThrottled(): data frames, client headers and server headers are never throttled; every other item is; a type missing from the table is reported", 16, func() {
 		want := map[string]bool{"dataFrame": false, "clientHeaders": false, "serverHeaders": false,
 			"registerStream": true, "cleanupStream": true, "earlyAbortStream": true, "incomingWindowUpdate": true, "outgoingWindowUpdate": true,
